@@ -562,7 +562,7 @@ func c19RunX(e *Env, wide bool, sw *c19SweepCase, park bool) {
 			d := deferred[0]
 			deferred = deferred[1:]
 			mu.Unlock()
-			if wide && t.Chance(1, 2) {
+			if t.Chance(1, 2) {
 				be.ArmWriteFault(&WriteFault{Kind: "temp", After: t.Range(0, 40)})
 			}
 			be.SetTag(d.id)
@@ -571,12 +571,7 @@ func c19RunX(e *Env, wide bool, sw *c19SweepCase, park bool) {
 			done := make(chan struct{})
 			go func() {
 				defer close(done)
-				a := d.build()
-				if wide {
-					a.WriteToWithRetry(d.c, 2)
-				} else {
-					a.WriteTo(d.c)
-				}
+				d.build().WriteToWithRetry(d.c, 2)
 			}()
 			e.Quiesce()
 			<-done
@@ -760,7 +755,7 @@ func c19RunX(e *Env, wide bool, sw *c19SweepCase, park bool) {
 			if t.Chance(1, 3) {
 				flushConcurrent()
 			}
-			if wide && t.Chance(1, 3) && pos < len(order) {
+			if t.Chance(1, 3) && pos < len(order) {
 				flushStalledRetry()
 			} else {
 				flushDeferred(1)
